@@ -118,8 +118,9 @@ public:
   std::vector<EP> ekeep;
   long hwN, hwE, unknown;
   bool logging;
+  bool full; // full projection (every query, also the ones that must raise) or only the maps
 
-  explicit World(bool directed) : g(), nreg(), ereg(), nobj(), eobj(), nkeep(), ekeep(), hwN(0), hwE(0), unknown(9000), logging(true)
+  explicit World(bool directed) : g(), nreg(), ereg(), nobj(), eobj(), nkeep(), ekeep(), hwN(0), hwE(0), unknown(9000), logging(true), full(true)
   {
     o[1].reset(new Obs(directed));
     g = o[1]->getGraph();
@@ -242,9 +243,39 @@ public:
     const GlobalGraph& cg = *g;
     GlobalGraph& mg = *g;
     Obj s;
+    s.kv("full", full);
     s.kv("dir", cg.isDirected());
     LV nodes = liveNodes();
     s.kv("nodes", arr(nodes));
+    if (!full)
+    {
+      // light projection: only what binds the views (node table, edge table)
+      Arr et0, nt0;
+      for (long e : liveEdges())
+      {
+        auto p = cg.getNodes(static_cast<Graph::EdgeId>(e));
+        et0.add(Arr().add(e).add(static_cast<long>(p.first)).add(static_cast<long>(p.second)));
+      }
+      s.kv("et", et0);
+      for (long nl : nodes)
+      {
+        Graph::NodeId n = static_cast<Graph::NodeId>(nl);
+        Obj r;
+        r.kv("n", nl);
+        for (int outgoing = 1; outgoing >= 0; --outgoing)
+        {
+          Arr z;
+          std::vector<Graph::NodeId> ns = outgoing ? cg.getOutgoingNeighbors(n) : cg.getIncomingNeighbors(n);
+          std::vector<Graph::EdgeId> es = outgoing ? cg.getOutgoingEdges(n) : cg.getIncomingEdges(n);
+          for (size_t i = 0; i < std::max(ns.size(), es.size()); ++i)
+            z.add(Arr().add(i < ns.size() ? static_cast<long>(ns[i]) : -9L).add(i < es.size() ? static_cast<long>(es[i]) : -9L));
+          r.kv(outgoing ? "om" : "im", z);
+        }
+        nt0.add(r.j());
+      }
+      s.kv("nt", nt0);
+      return s;
+    }
     s.kv("itn", arr(tryList([&]() { return drain(mg.allNodesIterator()); })));
     s.kv("itnc", arr(tryList([&]() { return drain(cg.allNodesIterator()); })));
     s.kv("nn", static_cast<long>(cg.getNumberOfNodes()));
@@ -319,12 +350,18 @@ public:
       nt.add(r.j());
     }
     s.kv("nt", nt);
+    // getEdge on every ordered pair, getAnyEdge once per unordered pair (-3 = not asked), one absent id
     LV ids = nodes;
     ids.push_back(absentNode());
     Arr pairs;
     for (long a : ids)
       for (long b : ids)
-        pairs.add(Arr().add(a).add(b).add(tryVal([&]() { return cg.getEdge(static_cast<Graph::NodeId>(a), static_cast<Graph::NodeId>(b)); })).add(tryVal([&]() { return cg.getAnyEdge(static_cast<Graph::NodeId>(a), static_cast<Graph::NodeId>(b)); })));
+      {
+        if (a == absentNode() && b != absentNode() && (nodes.empty() || b != nodes.front())) continue;
+        if (b == absentNode() && a != absentNode() && (nodes.empty() || a != nodes.front())) continue;
+        long any = a <= b ? tryVal([&]() { return cg.getAnyEdge(static_cast<Graph::NodeId>(a), static_cast<Graph::NodeId>(b)); }) : -3;
+        pairs.add(Arr().add(a).add(b).add(tryVal([&]() { return cg.getEdge(static_cast<Graph::NodeId>(a), static_cast<Graph::NodeId>(b)); })).add(any));
+      }
     s.kv("pairs", pairs);
     Graph::NodeId x = static_cast<Graph::NodeId>(absentNode());
     Graph::EdgeId y = static_cast<Graph::EdgeId>(absentEdge());
@@ -391,30 +428,30 @@ public:
     {
       const NP& p = it.second;
       if (c.hasNode(p)) o2n.add(Arr().add(it.first).add(tryVal([&]() { return c.getNodeGraphid(p); })));
-      else absq += !raises([&]() { c.getNodeGraphid(p); });
+      else if (full) absq += !raises([&]() { c.getNodeGraphid(p); });
       if (c.hasNodeIndex(p)) o2i.add(Arr().add(it.first).add(tryVal([&]() { return c.getNodeIndex(p); })));
-      else absq += !raises([&]() { c.getNodeIndex(p); });
+      else if (full) absq += !raises([&]() { c.getNodeIndex(p); });
     }
     for (const auto& it : eknown)
     {
       const EP& p = it.second;
       if (c.hasEdge(p)) o2e.add(Arr().add(it.first).add(tryVal([&]() { return c.getEdgeGraphid(p); })));
-      else absq += !raises([&]() { c.getEdgeGraphid(p); });
+      else if (full) absq += !raises([&]() { c.getEdgeGraphid(p); });
       if (c.hasEdgeIndex(p)) o2j.add(Arr().add(it.first).add(tryVal([&]() { return c.getEdgeIndex(p); })));
-      else absq += !raises([&]() { c.getEdgeIndex(p); });
+      else if (full) absq += !raises([&]() { c.getEdgeIndex(p); });
     }
     for (long i = 0; i <= IMAX; ++i)
     {
       unsigned int ui = static_cast<unsigned int>(i);
       if (c.hasNode(ui)) i2o.add(Arr().add(i).add(tryVal([&]() { return nid(c.getNode(ui), k); })));
-      else
+      else if (full)
       {
         NP q;
         bool r = raises([&]() { q = c.getNode(ui); });
         if (!r && q) ++absq;
       }
       if (c.hasEdge(ui)) j2o.add(Arr().add(i).add(tryVal([&]() { return eid(c.getEdge(ui), k); })));
-      else
+      else if (full)
       {
         EP q;
         bool r = raises([&]() { q = c.getEdge(ui); });
@@ -423,6 +460,7 @@ public:
     }
     w.kv("n2o", n2o).kv("o2n", o2n).kv("i2o", i2o).kv("o2i", o2i);
     w.kv("e2o", e2o).kv("o2e", o2e).kv("j2o", j2o).kv("o2j", o2j);
+    if (!full) return w;
     std::vector<NP> all;
     try
     {
@@ -635,13 +673,15 @@ public:
 // ------------------------------------------------------------------ scenario plumbing
 static long g_scenarios = 0;
 
-static std::unique_ptr<World> startScenario(bool directed, bool logReset = true)
+static std::unique_ptr<World> startScenario(bool directed, bool logReset = true, bool fullReset = true)
 {
   std::unique_ptr<World> w(new World(directed));
   if (logReset)
   {
     ++g_scenarios;
+    w->full = fullReset;
     w->emit("Reset", 0, LV(1, directed ? 1 : 0), "ok", J::num(0));
+    w->full = true;
   }
   return w;
 }
@@ -732,14 +772,32 @@ static void randomScenario(Rng& rng, long len, long maxNodes)
     };
     bool room = static_cast<long>(nodes.size()) < maxNodes;
     size_t c = rng.below(100);
+    if (nodes.size() < 2 && rng.chance(3, 4)) c = rng.below(22);   // grow first
+    if (c >= 98 && !w.has(2) && nodes.size() < 3 && rng.chance(3, 4)) c = rng.below(56);
+    // related pairs (a -> b listed by a), as graph ids and as objects of observer k
+    std::vector<std::pair<long, long>> relIds, relObjs, relFree;
+    for (long a : nodes)
+      for (long b : tryList([&]() { return sortedLV(w.g->getOutgoingNeighbors(static_cast<Graph::NodeId>(a))); }))
+      {
+        if (b < 0) continue;
+        relIds.push_back(std::make_pair(a, b));
+        long oa = w.nid(w.o[k]->getNodeFromGraphid(static_cast<Graph::NodeId>(a)), k), ob = w.nid(w.o[k]->getNodeFromGraphid(static_cast<Graph::NodeId>(b)), k);
+        if (oa >= 0 && ob >= 0)
+        {
+          relObjs.push_back(std::make_pair(oa, ob));
+          long e = tryVal([&]() { return w.g->getEdge(static_cast<Graph::NodeId>(a), static_cast<Graph::NodeId>(b)); });
+          if (e >= 0 && !w.o[k]->getEdgeFromGraphid(static_cast<Graph::EdgeId>(e))) relFree.push_back(std::make_pair(oa, ob));
+        }
+      }
     if (c < 10)
     {
-      if (room || absentArg) w.exec(Op("OCreateNode", k, LV{room ? newObj() : liveObj()}));
+      if (room) w.exec(Op("OCreateNode", k, LV{newObj()}));
+      else if (!objs.empty()) w.exec(Op("OCreateNode", k, LV{liveObj()})); // object in use: must raise
     }
     else if (c < 22)
     {
       long of = anyObj(), nw = newObj();
-      if (room || contains(objs, nw) || !contains(objs, of)) w.exec(Op("OCreateNodeFrom", k, LV{of, nw, newEObj()}));
+      if (room || contains(objs, nw) || (!contains(objs, of) && of != nw)) w.exec(Op("OCreateNodeFrom", k, LV{of, nw, newEObj()}));
     }
     else if (c < 40)
     {
@@ -750,20 +808,12 @@ static void randomScenario(Rng& rng, long len, long maxNodes)
     else if (c < 50)
     {
       long a = anyObj(), b = anyObj();
-      // prefer related pairs
-      if (!objs.empty() && rng.chance(2, 3))
+      if (!relObjs.empty() && rng.chance(3, 4))
       {
-        for (int t = 0; t < 6; ++t)
-        {
-          long a2 = liveObj(), b2 = liveObj();
-          long na = tryVal([&]() { return w.o[k]->getNodeGraphid(w.N(a2)); }), nb = tryVal([&]() { return w.o[k]->getNodeGraphid(w.N(b2)); });
-          if (na >= 0 && nb >= 0 && related(w, na, nb))
-          {
-            a = a2;
-            b = b2;
-            break;
-          }
-        }
+        auto pr = relObjs[rng.below(relObjs.size())];
+        a = pr.first;
+        b = pr.second;
+        if (!w.g->isDirected() && rng.coin()) std::swap(a, b);
       }
       w.exec(Op("OUnlink", k, LV{a, b}));
     }
@@ -793,7 +843,17 @@ static void randomScenario(Rng& rng, long len, long maxNodes)
       if (a == b && !w.g->isDirected() && contains(nodes, a)) continue;
       w.exec(Op("GLink", 0, LV{a, b}));
     }
-    else if (c < 73) w.exec(Op("GUnlink", 0, LV{anyNode(), anyNode()}));
+    else if (c < 73)
+    {
+      long a = anyNode(), b = anyNode();
+      if (!relIds.empty() && rng.chance(3, 4))
+      {
+        auto pr = relIds[rng.below(relIds.size())];
+        a = pr.first;
+        b = pr.second;
+      }
+      w.exec(Op("GUnlink", 0, LV{a, b}));
+    }
     else if (c < 75) w.exec(Op("GDeleteNode", 0, LV{anyNode()}));
     else if (c < 77) w.exec(Op("GMakeDirected", 0, LV()));
     else if (c < 79)
@@ -842,6 +902,18 @@ static void randomScenario(Rng& rng, long len, long maxNodes)
     {
       long a = anyObj(), b = anyObj();
       long eo = freshLabel(eobjs, base, k == 2 ? 50 : 1);
+      if (!relFree.empty() && rng.chance(2, 3))
+      {
+        auto pr = relFree[rng.below(relFree.size())];
+        a = pr.first;
+        b = pr.second;
+      }
+      else if (!relObjs.empty() && rng.chance(2, 3))
+      {
+        auto pr = relObjs[rng.below(relObjs.size())];
+        a = pr.first;
+        b = pr.second;
+      }
       w.exec(Op("SetEdgeLinking", k, LV{a, b, eo}));
     }
     else
@@ -1041,11 +1113,13 @@ static long bfs(const BfsCfg& cfg, long depth, long maxNodes, long cap, long& st
           states = static_cast<long>(seen.size());
           return transitions;
         }
-        std::unique_ptr<World> w = startScenario(cfg.directed, true);
+        std::unique_ptr<World> w = startScenario(cfg.directed, true, false);
         if (!hist.empty())
         {
           replaySilently(*w, hist);
+          w->full = false;
           w->emitLoad();
+          w->full = true;
         }
         std::vector<Op> h2 = hist;
         w->exec(op);
